@@ -1,8 +1,13 @@
 use std::mem::MaybeUninit;
 
+#[cfg(feature = "verif-hooks")]
+pub mod verif;
+
 /// Internal data holder, heavily unsage, do not use it directly.
 pub struct RecordMaybeUninit<const CAP: usize> {
     data: [MaybeUninit<u8>; CAP],
+    #[cfg(feature = "verif-hooks")]
+    shadow: [verif::ShadowByte; CAP],
 }
 
 impl<const CAP: usize> RecordMaybeUninit<CAP> {
@@ -10,6 +15,8 @@ impl<const CAP: usize> RecordMaybeUninit<CAP> {
     pub fn new() -> Self {
         Self {
             data: unsafe { std::mem::MaybeUninit::uninit().assume_init() },
+            #[cfg(feature = "verif-hooks")]
+            shadow: unsafe { std::mem::zeroed() },
         }
     }
 
@@ -20,6 +27,8 @@ impl<const CAP: usize> RecordMaybeUninit<CAP> {
     /// This function should not be called by anything but truc-generated code. It is used to put
     /// data written by [`Self::write`] back in a droppable state.
     pub unsafe fn read<T>(&self, offset: usize) -> T {
+        #[cfg(feature = "verif-hooks")]
+        verif::on_access::<T, CAP>(self, verif::Access::Read, offset);
         std::ptr::read((self.data.as_ptr().add(offset) as *const u8).cast())
     }
 
@@ -30,6 +39,8 @@ impl<const CAP: usize> RecordMaybeUninit<CAP> {
     /// This function should not be called by anything but truc-generated code which is also
     /// responsible for dropping the data by reading the object (see [`Self::read`]).
     pub unsafe fn write<T>(&mut self, offset: usize, t: T) {
+        #[cfg(feature = "verif-hooks")]
+        verif::on_access::<T, CAP>(self, verif::Access::Write, offset);
         std::ptr::write_unaligned((self.data.as_mut_ptr().add(offset) as *mut u8).cast(), t);
     }
 
@@ -39,6 +50,8 @@ impl<const CAP: usize> RecordMaybeUninit<CAP> {
     ///
     /// This function should not be called by anything but truc-generated code.
     pub unsafe fn get<T>(&self, offset: usize) -> &T {
+        #[cfg(feature = "verif-hooks")]
+        verif::on_access::<T, CAP>(self, verif::Access::Get, offset);
         &*(self.data.as_ptr().add(offset) as *mut u8).cast()
     }
 
@@ -48,7 +61,16 @@ impl<const CAP: usize> RecordMaybeUninit<CAP> {
     ///
     /// This function should not be called by anything but truc-generated code.
     pub unsafe fn get_mut<T>(&mut self, offset: usize) -> &mut T {
+        #[cfg(feature = "verif-hooks")]
+        verif::on_access::<T, CAP>(self, verif::Access::GetMut, offset);
         &mut *(self.data.as_mut_ptr().add(offset) as *mut u8).cast()
+    }
+}
+
+#[cfg(feature = "verif-hooks")]
+impl<const CAP: usize> Drop for RecordMaybeUninit<CAP> {
+    fn drop(&mut self) {
+        verif::on_buffer_drop::<CAP>(self);
     }
 }
 
